@@ -1,8 +1,15 @@
 (* C15: what the translator regenerated from sharedctypes.py on this run is what the model
    (and hence every theorem about raw_value / raw_array_* / incr_prog) is about. *)
 From Coq Require Import List.
-From BV Require Import Model.SharedMem Gen.G_sharedmem.
+From BV Require Import Model.SharedMem Model.SharedHop Gen.G_sharedmem.
 Import ListNotations.
+
+(* _new_value and rebuild_ctype, as effect sequences: the reducer of a ctypes type is registered by
+   rebuild_ctype, i.e. in every process that allocates OR receives an object of that type *)
+Lemma gen_hop_progs :
+  G_sharedmem.new_value_prog = SharedHop.new_value_prog /\
+  G_sharedmem.rebuild_prog = SharedHop.rebuild_prog.
+Proof. split; reflexivity. Qed.
 
 Lemma gen_creation_progs :
   G_sharedmem.rawvalue_prog = SharedMem.rawvalue_prog /\
